@@ -42,7 +42,7 @@ def grouping(draw, n, allow_default=True, force=None, min_groups=1):
     if by == 'default':
         return dict(by='default', kind='int', container='list', values=list(range(n)),
                     as_none=draw(st.integers(0, 3)) == 0)
-    kind = 'int' if by == 'index' else draw(st.sampled_from(['int', 'str']))
+    kind = 'int' if by == 'index' else draw(st.sampled_from(['int', 'str', 'int', 'str', 'float']))
     _, labs = draw(gen.label_set(n, kinds=(kind,)))
     mode = draw(st.sampled_from(['repeated', 'repeated', 'repeated', 'repeated', 'repeated',
                                  'unique', 'unique', 'unique-sorted', 'unique-sorted', 'one']))
